@@ -99,7 +99,13 @@ class Exec:
             def clock_actor() -> None:
                 for _ in range(case.get("clock_steps", 1)):
                     sched.gate("env:clock+lease")
-                    store.clock.advance(lease + 5.0)
+                    if case.get("aging") == "object":
+                        # only the lock OBJECT grows old (the contenders' wall clocks run ahead of the holder's
+                        # monotonic clock: suspend/resume, clock skew): the holder's own clock shows no lapse
+                        if ("bkt", lock_key) in store.objects:
+                            store.set_age("bkt", lock_key, lease + 5.0)
+                    else:
+                        store.clock.advance(lease + 5.0)
                     sched.count("lease_expiries")
 
             def hb_actor() -> None:
@@ -266,6 +272,10 @@ class C08(Check):
                 yield {"mode": "dfs", "ops": ["append", "append"], "lock": "real", "clock_steps": 1, "hb_steps": 0,
                        "k": 1, "shard": sh, "nshards": 2, "tz": z}
         # one committer + a thief that takes the lock over and keeps it + the clock: all <=1-preemption schedules
+        for ops in (["append"], ["delsnap"]):
+            for sh in range(4):
+                yield {"mode": "dfs", "ops": ops, "lock": "real", "clock_steps": 1, "hb_steps": 0, "thief": True, "aging": "object",
+                       "k": 1 if tier == "quick" else 2, "shard": sh, "nshards": 4}
         for ops in (["append"], ["delsnap"], ["delete"]):
             for thief in (True, "release"):
                 for sh in range(4):
